@@ -1,7 +1,7 @@
 (* Proofs/FileDedup.v — duplicate removal's rounding (Base/Round.v, digit tuples of Gen/GenDedup.v)
    against the print classes of the column tables (Gen/GenFile.v). *)
 From Coq Require Import List Bool ZArith QArith Qpower Qround Qabs Qreduction Lia Lqa.
-From PV Require Import Base.QUtil Base.Round Gen.GenFile Gen.GenDedup Model.File Proofs.FileProofs.
+From PV Require Import Base.QUtil Base.Round Gen.GenFile Gen.GenDedup Model.File Proofs.FileProofs Proofs.RoundProofs Proofs.RoundVsPrint.
 Import ListNotations.
 Open Scope Q_scope.
 
@@ -112,4 +112,136 @@ Proof.
   rewrite <- (round_dec_int (- dig) x) by (try lia; assumption).
   rewrite <- (round_dec_int (- dig) y) by (try lia; assumption).
   rewrite H. reflexivity.
+Qed.
+
+(* ---- kinds 3 and 4: significant-digit columns, with round_spec = fmt_sig on the common range (RoundVsPrint.v) ---- *)
+Lemma kind_cases dig c k : refine_kind dig c = k -> (k = 3)%Z ->
+  (0 <? dig)%Z = true /\ is_sig_col c = true /\ (c_fmt c =? dig)%Z = true /\ Qeq_bool (c_mult c) 1 = true.
+Proof.
+  unfold refine_kind. intros K K3.
+  destruct ((dig <=? 0)%Z && is_int_col c && Qeq_bool (pow10 (- dig)) (c_mult c)); [lia|].
+  destruct ((dig <=? 0)%Z && is_int_col c && Qeq_bool (c_mult c) 1); [lia|].
+  destruct ((0 <? dig)%Z && is_sig_col c && (c_fmt c =? dig)%Z && Qeq_bool (c_mult c) 1) eqn:E.
+  - apply andb_true_iff in E. destruct E as [E A4]. apply andb_true_iff in E. destruct E as [E A3].
+    apply andb_true_iff in E. destruct E as [A1 A2]. tauto.
+  - destruct ((0 <? dig)%Z && is_raster_col c && (c_fmt c =? dig)%Z); lia.
+Qed.
+
+Lemma kind4_cases dig c : refine_kind dig c = 4%Z ->
+  (0 <? dig)%Z = true /\ is_raster_col c = true /\ (c_fmt c =? dig)%Z = true.
+Proof.
+  unfold refine_kind. intros K.
+  destruct ((dig <=? 0)%Z && is_int_col c && Qeq_bool (pow10 (- dig)) (c_mult c)); [discriminate|].
+  destruct ((dig <=? 0)%Z && is_int_col c && Qeq_bool (c_mult c) 1); [discriminate|].
+  destruct ((0 <? dig)%Z && is_sig_col c && (c_fmt c =? dig)%Z && Qeq_bool (c_mult c) 1); [discriminate|].
+  destruct ((0 <? dig)%Z && is_raster_col c && (c_fmt c =? dig)%Z) eqn:E; [|discriminate].
+  apply andb_true_iff in E. destruct E as [E A3]. apply andb_true_iff in E. tauto.
+Qed.
+
+Lemma wcol_kind3 rfr dig c x : refine_kind dig c = 3%Z -> wcol rfr c x = fmt_sig dig x.
+Proof.
+  intro K. destruct (kind_cases dig c 3 K eq_refl) as [D [S [FM M]]].
+  apply Z.eqb_eq in FM. apply Qeq_bool_iff in M.
+  unfold is_sig_col in S. apply andb_true_iff in S. destruct S as [S _].
+  apply andb_true_iff in S. destruct S as [S P1]. apply andb_true_iff in S. destruct S as [F P2].
+  apply negb_true_iff in P1. apply negb_true_iff in P2.
+  rewrite (wcol_sig rfr c x F), P2, P1, FM. apply fmt_sig_Proper. rewrite M. ring.
+Qed.
+
+(* kind 3, both directions: on the common range duplicate removal identifies exactly what prints identically *)
+Theorem dedup_classes_eq_print_classes_sig rfr dig c x y :
+  refine_kind dig c = 3%Z -> sig_range dig x -> sig_range dig y ->
+  (round_spec dig x = round_spec dig y <-> wcol rfr c x = wcol rfr c y).
+Proof.
+  intros K RX RY. rewrite (wcol_kind3 rfr dig c x K), (wcol_kind3 rfr dig c y K).
+  destruct (kind_cases dig c 3 K eq_refl) as [D _]. apply Z.ltb_lt in D.
+  apply dedup_classes_refine_print_classes_sig; [lia|assumption|assumption].
+Qed.
+
+(* scaling by a power of ten commutes with rounding to significant digits *)
+Lemma fmt_sig_scale n x j : fmt_sig n (x * p10 j) == fmt_sig n x * p10 j.
+Proof.
+  destruct (Qeq_dec x 0) as [Z0|NZ].
+  - rewrite (fmt_sig_zero n x Z0). assert (Z1 : x * p10 j == 0) by (rewrite Z0; ring).
+    rewrite (fmt_sig_zero n _ Z1). ring.
+  - destruct (decade_of x NZ) as [A B]. set (e := flog10 (Qabs x)) in *.
+    pose proof (p10_pos j) as Pj.
+    assert (NZ' : ~ x * p10 j == 0).
+    { intro H. apply NZ. apply Qmult_integral in H. destruct H as [H|H]; [exact H|lra]. }
+    assert (AB : Qabs (x * p10 j) == Qabs x * p10 j) by (rewrite Qabs_Qmult, (Qabs_pos (p10 j)) by lra; reflexivity).
+    assert (A' : p10 (e + j) <= Qabs (x * p10 j)).
+    { rewrite AB, (p10_add e j). apply Qmult_le_compat_r; lra. }
+    assert (B' : Qabs (x * p10 j) < p10 (e + j + 1)).
+    { rewrite AB. replace (e + j + 1)%Z with (e + 1 + j)%Z by lia. rewrite (p10_add (e + 1) j). apply Qmult_lt_compat_r; lra. }
+    rewrite (fmt_sig_unfold n (x * p10 j) (e + j) NZ' A' B'), (fmt_sig_unfold n x e NZ A B).
+    replace (n - 1 - (e + j))%Z with (n - 1 - e + - j)%Z by lia.
+    set (k := (n - 1 - e)%Z).
+    assert (E1 : x * p10 j * p10 (k + - j) == x * p10 k).
+    { rewrite (p10_add k (- j)). setoid_replace (x * p10 j * (p10 k * p10 (- j))) with (x * p10 k * (p10 j * p10 (- j))) by ring.
+      rewrite p10_inv. ring. }
+    rewrite (rnd_he_Proper _ _ E1).
+    replace (- (k + - j))%Z with (- k + j)%Z by lia. rewrite (p10_add (- k) j). ring.
+Qed.
+
+(* kind 4 (RF delay): for delays on the RF raster, values identified by duplicate removal print identically *)
+Theorem dedup_refines_print_raster rfr dig c j x y :
+  refine_kind dig c = 4%Z -> c_mult c == p10 j -> ~ rfr == 0 ->
+  (exists N, x == inject_Z N * rfr) -> (exists N, y == inject_Z N * rfr) ->
+  sig_range dig x -> sig_range dig y ->
+  round_spec dig x = round_spec dig y -> wcol rfr c x = wcol rfr c y.
+Proof.
+  intros K M NZ [Nx EX] [Ny EY] RX RY H.
+  destruct (kind4_cases dig c K) as [D [R FM]]. apply Z.eqb_eq in FM. apply Z.ltb_lt in D.
+  unfold is_raster_col in R. apply andb_true_iff in R. destruct R as [R _]. apply andb_true_iff in R. destruct R as [F P2].
+  rewrite (wcol_sig rfr c x F), (wcol_sig rfr c y F), P2, FM.
+  rewrite (round_spec_eq_fmt_sig dig x ltac:(lia) RX), (round_spec_eq_fmt_sig dig y ltac:(lia) RY) in H.
+  assert (GX : inject_Z (rnd_he (x / rfr)) * rfr * c_mult c == x * p10 j).
+  { assert (Q1 : x / rfr == inject_Z Nx) by (rewrite EX; field; exact NZ).
+    rewrite (rnd_he_Proper _ _ Q1), rnd_he_inject, M, EX. reflexivity. }
+  assert (GY : inject_Z (rnd_he (y / rfr)) * rfr * c_mult c == y * p10 j).
+  { assert (Q1 : y / rfr == inject_Z Ny) by (rewrite EY; field; exact NZ).
+    rewrite (rnd_he_Proper _ _ Q1), rnd_he_inject, M, EY. reflexivity. }
+  rewrite (fmt_sig_Proper dig _ _ GX), (fmt_sig_Proper dig _ _ GY).
+  apply Qeq_canon_eq; [apply fmt_sig_canon|apply fmt_sig_canon|].
+  rewrite (fmt_sig_scale dig x j), (fmt_sig_scale dig y j), H. reflexivity.
+Qed.
+
+(* ---- quantised values (shape samples are multiples of 1e-7): below the common range too ------------------------ *)
+(* a multiple of 10^-q that leaves room for q decimals within dig significant digits is a fixed point of
+   duplicate removal's rounding, whatever its magnitude (down to 0) *)
+Lemma round_spec_on_grid dig q m x :
+  (0 < dig)%Z -> x == inject_Z m * pow10 (- q) -> Qabs x + log_offset <= pow10 (dig - q) ->
+  Qeq_bool x neg_zero = false -> round_spec dig x == x.
+Proof.
+  intros D G U NN. rewrite (round_spec_sig_eq dig x NN D).
+  destruct (sig_exp_spec x) as [[L1 L2] [S _]]. cbv zeta in *.
+  assert (EB : (sig_exp x <= dig - q)%Z).
+  { destruct S as [S|S].
+    - rewrite S. destruct (Z_lt_le_dec (dig - q) (-12)) as [LT|GE]; [|exact GE]. exfalso.
+      apply RoundProofs.pow10_lt in LT. rewrite <- log_offset_pow in LT. pose proof (Qabs_nonneg x). lra.
+    - assert (LT : pow10 (sig_exp x - 1) < pow10 (dig - q)) by lra. apply pow10_lt_inv in LT. lia. }
+  apply (round_dec_on_grid q (dig - sig_exp x) m x); [lia|exact G].
+Qed.
+
+Theorem quantised_dedup_is_print dig q m x :
+  (1 <= dig)%Z -> (0 <= q)%Z -> x == inject_Z m * pow10 (- q) -> Qabs x + log_offset <= pow10 (dig - q) ->
+  Qeq_bool x neg_zero = false -> round_spec dig x = fmt_sig dig x.
+Proof.
+  intros D Q0 G U NN.
+  assert (RS : round_spec dig x == x) by (apply (round_spec_on_grid dig q m x); [lia|assumption..]).
+  assert (MB : (Z.abs m < 10 ^ dig)%Z).
+  { assert (A : Qabs x == inject_Z (Z.abs m) * pow10 (- q)) by (rewrite G; apply Qabs_inject_mult; apply RoundProofs.pow10_pos).
+    assert (B : inject_Z (Z.abs m) * pow10 (- q) < pow10 (dig - q)).
+    { rewrite <- A. assert (0 < log_offset) by reflexivity. lra. }
+    replace (dig - q)%Z with (dig + - q)%Z in B by lia. rewrite pow10_plus in B.
+    pose proof (RoundProofs.pow10_pos (- q)) as P. apply Qmult_lt_r in B; [|exact P].
+    rewrite pow10_nonneg_int in B by lia. rewrite <- Zlt_Qlt in B. exact B. }
+  assert (FS : fmt_sig dig x == x).
+  { assert (G' : x == inject_Z m * p10 (- q)) by (rewrite G, pow10_p10; reflexivity).
+    assert (E1 : fmt_sig dig x = fmt_sig dig (inject_Z m * p10 (- q))) by (apply fmt_sig_Proper; exact G').
+    rewrite E1, (fmt_sig_exact_decimal dig m q D MB). symmetry. exact G'. }
+  apply Qeq_canon_eq.
+  - rewrite (round_spec_sig_eq dig x NN ltac:(lia)). apply round_dec_canon.
+  - apply fmt_sig_canon.
+  - rewrite RS, FS. reflexivity.
 Qed.
